@@ -135,72 +135,103 @@ theorem getNext_cases (cfg : Cfg) (s : St) (id : Bytes) :
     · left; exact ⟨_, by simpa using h, by simp⟩
     · right; exact ⟨b, r, by simpa using h, hm⟩
 
-/-- the shape of one step -/
-theorem step_cases (cfg : Cfg) (s : St) (op : Op) :
-    ∃ s₁, Trans key cfg s s₁ (acceptedBy op (step key cfg s op).2) (deliveredBy op (step key cfg s op).2) ∧
-      ((step key cfg s op).1 = s₁ ∨ (step key cfg s op).1 = reload s₁) ∧
-      (op.plain = true → (step key cfg s op).1 = s₁) := by
+/-- the shape of one step: a primitive transition to `stepCore` (the state before the process stops,
+if it does), then a reload exactly for the operations that restart -/
+theorem step_core (cfg : Cfg) (s : St) (op : Op) :
+    Trans key cfg s (stepCore key cfg s op) (acceptedBy op (step key cfg s op).2) (removedBy op (step key cfg s op).2) ∧
+    (step key cfg s op).1 = (if op.plain = true then stepCore key cfg s op else reload (stepCore key cfg s op)) := by
   cases op with
   | submit id b =>
     rcases submit_cases key cfg s id b with ⟨o, h, ho⟩ | ⟨h, hf⟩
-    · refine ⟨s, ?_, by simp [step, h], by simp [step, h]⟩
-      rcases ho with rfl | rfl | rfl <;> simp [step, h, acceptedBy, deliveredBy] <;> exact .none
-    · refine ⟨accept key s b, ?_, by simp [step, h], by simp [step, h]⟩
-      simp only [step, h, acceptedBy, deliveredBy]
+    · refine ⟨?_, by simp [step, stepCore, Op.plain]⟩
+      rcases ho with rfl | rfl | rfl <;> simp [step, stepCore, h, acceptedBy, removedBy] <;> exact .none
+    · refine ⟨?_, by simp [step, stepCore, Op.plain]⟩
+      simp only [step, stepCore, h, acceptedBy, removedBy]
       exact .accept b hf
   | next id =>
     rcases getNext_cases key cfg s id with ⟨o, h, ho⟩ | ⟨b, r, h, hm⟩
-    · refine ⟨s, ?_, by simp [step, h], by simp [step, h]⟩
-      rcases ho with rfl | rfl <;> simp [step, h, acceptedBy, deliveredBy] <;> exact .none
-    · refine ⟨pop key s b r, ?_, by simp [step, h], by simp [step, h]⟩
-      simp only [step, h, acceptedBy, deliveredBy]
+    · refine ⟨?_, by simp [step, stepCore, Op.plain]⟩
+      rcases ho with rfl | rfl <;> simp [step, stepCore, h, acceptedBy, removedBy] <;> exact .none
+    · refine ⟨?_, by simp [step, stepCore, Op.plain]⟩
+      simp only [step, stepCore, h, acceptedBy, removedBy]
       exact .pop b r hm
-  | restart => exact ⟨s, by simp [acceptedBy, deliveredBy]; exact .none, by simp [step], by simp [Op.plain]⟩
-  | load => exact ⟨s, by simp [acceptedBy, deliveredBy]; exact .none, by simp [step], by simp [Op.plain]⟩
+  | restart => exact ⟨by simp [acceptedBy, removedBy, stepCore]; exact .none, by simp [step, stepCore, Op.plain]⟩
+  | load => exact ⟨by simp [acceptedBy, removedBy, stepCore]; exact .none, by simp [step, stepCore, Op.plain]⟩
   | crashSubmit aw id b =>
     cases aw with
     | true =>
       rcases submit_cases key cfg s id b with ⟨o, h, ho⟩ | ⟨h, hf⟩
-      · refine ⟨s, ?_, by simp [step, h], by simp [Op.plain]⟩
-        rcases ho with rfl | rfl | rfl <;> simp [step, h, acceptedBy, deliveredBy] <;> exact .none
-      · refine ⟨accept key s b, ?_, by simp [step, h], by simp [Op.plain]⟩
-        simp only [step, h, acceptedBy, deliveredBy]
+      · refine ⟨?_, by simp [step, stepCore, Op.plain]⟩
+        rcases ho with rfl | rfl | rfl <;> simp [step, stepCore, h, acceptedBy, removedBy] <;> exact .none
+      · refine ⟨?_, by simp [step, stepCore, Op.plain]⟩
+        simp only [step, stepCore, h, acceptedBy, removedBy]
         exact .accept b hf
     | false =>
-      refine ⟨s, ?_, by simp [step], by simp [Op.plain]⟩
+      refine ⟨?_, by simp [step, stepCore, Op.plain]⟩
       have : acceptedBy (.crashSubmit false id b) (step key cfg s (.crashSubmit false id b)).2 = [] := by
         cases (step key cfg s (.crashSubmit false id b)).2 <;> rfl
-      have h2 : deliveredBy (.crashSubmit false id b) (step key cfg s (.crashSubmit false id b)).2 = [] := by
+      have h2 : removedBy (.crashSubmit false id b) (step key cfg s (.crashSubmit false id b)).2 = [] := by
         cases (step key cfg s (.crashSubmit false id b)).2 <;> rfl
       rw [this, h2]; exact .none
   | crashNext aw id =>
     cases aw with
     | true =>
       rcases getNext_cases key cfg s id with ⟨o, h, ho⟩ | ⟨b, r, h, hm⟩
-      · refine ⟨s, ?_, by simp [step, h], by simp [Op.plain]⟩
-        rcases ho with rfl | rfl <;> simp [step, h, acceptedBy, deliveredBy] <;> exact .none
-      · refine ⟨pop key s b r, ?_, by simp [step, h], by simp [Op.plain]⟩
-        simp only [step, h, acceptedBy, deliveredBy]
+      · refine ⟨?_, by simp [step, stepCore, Op.plain]⟩
+        rcases ho with rfl | rfl <;> simp [step, stepCore, h, acceptedBy, removedBy] <;> exact .none
+      · refine ⟨?_, by simp [step, stepCore, Op.plain]⟩
+        simp only [step, stepCore, h, acceptedBy, removedBy]
         exact .pop b r hm
     | false =>
-      refine ⟨s, ?_, by simp [step], by simp [Op.plain]⟩
+      refine ⟨?_, by simp [step, stepCore, Op.plain]⟩
       have : acceptedBy (.crashNext false id) (step key cfg s (.crashNext false id)).2 = [] := by
         cases (step key cfg s (.crashNext false id)).2 <;> rfl
-      have h2 : deliveredBy (.crashNext false id) (step key cfg s (.crashNext false id)).2 = [] := by
+      have h2 : removedBy (.crashNext false id) (step key cfg s (.crashNext false id)).2 = [] := by
         cases (step key cfg s (.crashNext false id)).2 <;> rfl
       rw [this, h2]; exact .none
   | add b =>
     rcases addBatch_cases key cfg s b with ⟨h, _⟩ | ⟨h, hf⟩
-    · exact ⟨s, by simp [step, h, acceptedBy, deliveredBy]; exact .none, by simp [step, h], by simp [step, h]⟩
-    · refine ⟨accept key s b, ?_, by simp [step, h], by simp [step, h]⟩
-      simp only [step, h, acceptedBy, deliveredBy]
+    · exact ⟨by simp [step, stepCore, h, acceptedBy, removedBy]; exact .none, by simp [step, stepCore, Op.plain]⟩
+    · refine ⟨?_, by simp [step, stepCore, Op.plain]⟩
+      simp only [step, stepCore, h, acceptedBy, removedBy]
       exact .accept b hf
   | qnext =>
     rcases nextBatch_cases key s with ⟨h, _⟩ | ⟨b, r, h, hm⟩
-    · exact ⟨s, by simp [step, h, acceptedBy, deliveredBy]; exact .none, by simp [step, h], by simp [step, h]⟩
-    · refine ⟨pop key s b r, ?_, by simp [step, h], by simp [step, h]⟩
-      simp only [step, h, acceptedBy, deliveredBy]
+    · exact ⟨by simp [step, stepCore, h, acceptedBy, removedBy]; exact .none, by simp [step, stepCore, Op.plain]⟩
+    · refine ⟨?_, by simp [step, stepCore, Op.plain]⟩
+      simp only [step, stepCore, h, acceptedBy, removedBy]
       exact .pop b r hm
+
+/-- the same, with the intermediate state abstracted -/
+theorem step_cases (cfg : Cfg) (s : St) (op : Op) :
+    ∃ s₁, Trans key cfg s s₁ (acceptedBy op (step key cfg s op).2) (removedBy op (step key cfg s op).2) ∧
+      ((step key cfg s op).1 = s₁ ∨ (step key cfg s op).1 = reload s₁) ∧
+      (op.plain = true → (step key cfg s op).1 = s₁) := by
+  obtain ⟨t, hs⟩ := step_core key cfg s op
+  refine ⟨_, t, ?_, fun hp => by rw [hs, if_pos hp]⟩
+  by_cases hp : op.plain = true
+  · left; rw [hs, if_pos hp]
+  · right; rw [hs, if_neg hp]
+
+/-! ## the ghost lists: removed = handed out + lost in the window between `Delete` and return -/
+
+theorem removedBy_eq (op : Op) (o : Out) : removedBy op o = deliveredBy op o ++ lostBy op o := by
+  cases op with
+  | crashNext aw id => cases aw <;> cases o <;> rfl
+  | crashSubmit aw id b => cases aw <;> cases o <;> rfl
+  | _ => cases o <;> rfl
+
+theorem lostBy_nil_of_not_crash {op : Op} (h : op.crashAfterDelete = false) (o : Out) : lostBy op o = [] := by
+  cases op with
+  | crashNext aw id =>
+    cases aw
+    · cases o <;> rfl
+    · simp [Op.crashAfterDelete] at h
+  | crashSubmit aw id b => cases aw <;> cases o <;> rfl
+  | _ => cases o <;> rfl
+
+theorem plain_not_crash {op : Op} (h : op.plain = true) : op.crashAfterDelete = false := by
+  cases op <;> first | rfl | simp [Op.plain] at h
 
 /-! ## lifting a one-step invariant over histories -/
 
@@ -240,6 +271,58 @@ theorem run_induction_guarded (cfg : Cfg) (P : Run → Prop) (G : List Batch →
     rw [runFrom_cons] at hg ⊢
     obtain ⟨t, ht⟩ := acc_prefix key cfg (Run.step key cfg r op) ops
     exact ih _ (hstep r op h0 (hG _ t (ht ▸ hg))) hg
+
+/-- an invariant that needs, at every position of the history, a hypothesis `Q` about the operation
+executed there and the state it reaches before the process stops (`stepCore`) -/
+theorem run_induction_moments (cfg : Cfg) (P : Run → Prop) (Q : Op → St → Prop)
+    (hstep : ∀ r op, P r → Q op (stepCore key cfg r.st op) → P (Run.step key cfg r op))
+    (r : Run) (h0 : P r) (ops : List Op)
+    (hq : ∀ pre op post, ops = pre ++ op :: post → Q op (stepCore key cfg (runFrom key cfg r pre).st op)) :
+    P (runFrom key cfg r ops) := by
+  induction ops generalizing r with
+  | nil => exact h0
+  | cons op ops ih =>
+    rw [runFrom_cons]
+    refine ih _ (hstep r op h0 (hq [] op ops rfl)) (fun pre o post he => ?_)
+    have := hq (op :: pre) o post (by rw [he]; rfl)
+    rwa [runFrom_cons] at this
+
+/-- ghost bookkeeping (every history): removed = handed out + lost, as multisets; handed out is a
+subsequence of removed -/
+structure Gh (r : Run) : Prop where
+  perm : r.rem.Perm (r.dlv ++ r.lost)
+  sub : r.dlv.Sublist r.rem
+
+theorem Gh_step {cfg : Cfg} {r : Run} (h : Gh r) (op : Op) : Gh (Run.step key cfg r op) := by
+  constructor
+  · show (r.rem ++ removedBy op _).Perm (r.dlv ++ deliveredBy op _ ++ (r.lost ++ lostBy op _))
+    rw [removedBy_eq]
+    have h1 := h.perm.append_right (deliveredBy op (step key cfg r.st op).2 ++ lostBy op (step key cfg r.st op).2)
+    refine h1.trans ?_
+    simp only [append_assoc]
+    refine Perm.append_left _ ?_
+    rw [← append_assoc, ← append_assoc]
+    exact Perm.append_right _ perm_append_comm
+  · show (r.dlv ++ deliveredBy op _).Sublist (r.rem ++ removedBy op _)
+    rw [removedBy_eq]
+    exact h.sub.append (sublist_append_left _ _)
+
+theorem Gh_run (cfg : Cfg) (ops : List Op) : Gh (run key cfg ops) :=
+  run_induction key cfg Gh (fun _ op h => Gh_step key h op) {} ⟨by simp, by simp⟩ ops
+
+/-- nothing was lost in the window ⇒ handed out = removed, as sequences -/
+theorem dlv_eq_rem {r : Run} (h : Gh r) (hl : r.lost = []) : r.dlv = r.rem := by
+  have hp := h.perm
+  rw [hl, append_nil] at hp
+  exact h.sub.eq_of_length hp.length_eq.symm
+
+/-- no call died between its `Delete` and its return ⇒ nothing was lost in that window -/
+theorem lost_nil_of_no_crash (cfg : Cfg) (ops : List Op) (h : ∀ op ∈ ops, op.crashAfterDelete = false) :
+    (run key cfg ops).lost = [] := by
+  refine run_induction_moments key cfg (fun r => r.lost = []) (fun op _ => op.crashAfterDelete = false)
+    (fun r op hr hq => ?_) {} rfl ops (fun pre op post he => h op (by simp [he]))
+  show r.lost ++ lostBy op _ = []
+  rw [hr, lostBy_nil_of_not_crash hq]; rfl
 
 /-! ## invariant J (every key function, every history): the datastore is a key-sorted, correctly
 keyed sub-multiset of memory, and memory respects the bound -/
@@ -304,7 +387,7 @@ theorem J_run (cfg : Cfg) (ops : List Op) : J key cfg (run key cfg ops).st :=
 /-! ## invariant M (every key function, every history): nothing is handed out or pending more often
 than it was accepted -/
 
-def M (r : Run) : Prop := ∀ x, (r.dlv ++ r.st.mem).count x ≤ r.acc.count x
+def M (r : Run) : Prop := ∀ x, (r.rem ++ r.st.mem).count x ≤ r.acc.count x
 
 theorem M_trans {cfg : Cfg} {s s₁ : St} {a d acc dlv : List Batch} (t : Trans key cfg s s₁ a d)
     (h : ∀ x, (dlv ++ s.mem).count x ≤ acc.count x) :
@@ -338,33 +421,29 @@ theorem M_step {cfg : Cfg} {r : Run} (hj : J key cfg r.st) (h : M r) (op : Op) :
     simp only [Run.step, hs, reload, count_append] at h3 ⊢
     omega
 
-/-! ## invariant K (distinct keys): the datastore holds exactly the pending batches, and handed out
-++ pending is a permutation of accepted -/
+/-! ## invariant K (no two equal keys pending at the same time): the datastore holds exactly the
+pending batches, and removed ++ pending is a permutation of accepted -/
 
 structure K (r : Run) : Prop where
   keyed : Keyed key r.st.disk
-  multiset : (r.dlv ++ r.st.mem).Perm r.acc
+  multiset : (r.rem ++ r.st.mem).Perm r.acc
   disk : (r.st.disk.map (·.2)).Perm r.st.mem
+  nodup : (r.st.mem.map key).Nodup
 
-theorem K_init : K key {} := ⟨fun _ h => by simp at h, by simp, by simp⟩
+theorem K_init : K key {} := ⟨fun _ h => by simp at h, by simp, by simp, by simp⟩
 
-theorem nodup_keys_prefix (l t : List Batch) (h : ((l ++ t).map key).Nodup) : (l.map key).Nodup := by
-  rw [map_append] at h
-  exact (nodup_append.1 h).1
-
-theorem K_trans {cfg : Cfg} {s s₁ : St} {a d acc dlv : List Batch} (t : Trans key cfg s s₁ a d)
-    (hkd : Keyed key s.disk) (hms : (dlv ++ s.mem).Perm acc) (hdisk : (s.disk.map (·.2)).Perm s.mem)
-    (hn : ((acc ++ a).map key).Nodup) :
-    Keyed key s₁.disk ∧ (dlv ++ d ++ s₁.mem).Perm (acc ++ a) ∧ (s₁.disk.map (·.2)).Perm s₁.mem := by
+theorem K_trans {cfg : Cfg} {s s₁ : St} {a d acc rem : List Batch} (t : Trans key cfg s s₁ a d)
+    (hkd : Keyed key s.disk) (hms : (rem ++ s.mem).Perm acc) (hdisk : (s.disk.map (·.2)).Perm s.mem)
+    (hmem : (s.mem.map key).Nodup) (hn : (s₁.mem.map key).Nodup) :
+    Keyed key s₁.disk ∧ (rem ++ d ++ s₁.mem).Perm (acc ++ a) ∧ (s₁.disk.map (·.2)).Perm s₁.mem := by
   cases t with
   | none => exact ⟨hkd, by simpa using hms, hdisk⟩
   | accept b hf =>
     -- the new key is not among the pending ones
     have hnk : ∀ x ∈ s.mem, key x ≠ key b := by
       intro x hx hxb
-      have hxa : x ∈ acc := (hms.mem_iff).1 (mem_append_right _ hx)
-      rw [map_append, nodup_append] at hn
-      exact hn.2.2 (key x) (mem_map_of_mem hxa) (key b) (by simp) hxb
+      simp only [accept, map_append, map_cons, map_nil] at hn
+      exact (nodup_append.1 hn).2.2 (key x) (mem_map_of_mem hx) (key b) (by simp) hxb
     refine ⟨keyed_put hkd b, ?_, ?_⟩
     · simp only [accept, append_nil]
       rw [← append_assoc]
@@ -377,11 +456,6 @@ theorem K_trans {cfg : Cfg} {s s₁ : St} {a d acc dlv : List Batch} (t : Trans 
       simp only [accept]
       exact (Perm.cons b hdisk).trans (perm_append_comm (l₁ := [b]))
   | pop b rest hm =>
-    simp only [append_nil] at hn
-    have hmem : (s.mem.map key).Nodup := by
-      have h2 : ((dlv ++ s.mem).map key).Nodup := (hms.map key).nodup_iff.2 hn
-      rw [map_append] at h2
-      exact (nodup_append.1 h2).2.1
     have hnk : ∀ x ∈ rest, key x ≠ key b := by
       rw [hm, map_cons, nodup_cons] at hmem
       intro x hx hxb
@@ -402,21 +476,27 @@ theorem K_trans {cfg : Cfg} {s s₁ : St} {a d acc dlv : List Batch} (t : Trans 
       exact h3
 
 theorem K_step {cfg : Cfg} {r : Run} (h : K key r) (op : Op)
-    (hn : ((Run.step key cfg r op).acc.map key).Nodup) : K key (Run.step key cfg r op) := by
-  obtain ⟨s₁, t, hs, _⟩ := step_cases key cfg r.st op
-  have hacc : (Run.step key cfg r op).acc = r.acc ++ acceptedBy op (step key cfg r.st op).2 := rfl
-  rw [hacc] at hn
-  have h1 := K_trans key t h.keyed h.multiset h.disk hn
-  rcases hs with hs | hs
-  · exact ⟨by simpa [Run.step, hs] using h1.1, by simpa [Run.step, hs] using h1.2.1, by simpa [Run.step, hs] using h1.2.2⟩
-  · refine ⟨by simpa [Run.step, hs, reload] using h1.1, ?_, by simp [Run.step, hs, reload]⟩
-    have : (r.dlv ++ deliveredBy op (step key cfg r.st op).2 ++ s₁.disk.map (·.2)).Perm
-        (r.dlv ++ deliveredBy op (step key cfg r.st op).2 ++ s₁.mem) := Perm.append_left _ h1.2.2
-    simpa [Run.step, hs, reload] using this.trans h1.2.1
+    (hn : ((stepCore key cfg r.st op).mem.map key).Nodup) : K key (Run.step key cfg r op) := by
+  obtain ⟨t, hs⟩ := step_core key cfg r.st op
+  have h1 := K_trans key t h.keyed h.multiset h.disk h.nodup hn
+  by_cases hp : op.plain = true
+  · rw [if_pos hp] at hs
+    exact ⟨by simpa [Run.step, hs] using h1.1, by simpa [Run.step, hs] using h1.2.1,
+      by simpa [Run.step, hs] using h1.2.2, by simpa [Run.step, hs] using hn⟩
+  · rw [if_neg hp] at hs
+    refine ⟨by simpa [Run.step, hs, reload] using h1.1, ?_, by simp [Run.step, hs, reload], ?_⟩
+    · have : (r.rem ++ removedBy op (step key cfg r.st op).2 ++ (stepCore key cfg r.st op).disk.map (·.2)).Perm
+          (r.rem ++ removedBy op (step key cfg r.st op).2 ++ (stepCore key cfg r.st op).mem) := Perm.append_left _ h1.2.2
+      simpa [Run.step, hs, reload] using this.trans h1.2.1
+    · have : (((stepCore key cfg r.st op).disk.map (·.2)).map key).Nodup := ((h1.2.2.map key).nodup_iff).2 hn
+      simpa [Run.step, hs, reload] using this
 
-theorem K_run (cfg : Cfg) (ops : List Op) (hn : ((run key cfg ops).acc.map key).Nodup) : K key (run key cfg ops) :=
-  run_induction_guarded key cfg (K key) (fun l => (l.map key).Nodup) (nodup_keys_prefix key)
-    (fun _ op h hg => K_step key h op hg) {} (K_init key) ops hn
+/-- `Q` for K: in the state the operation reaches no two pending batches have the same key -/
+theorem K_run (cfg : Cfg) (ops : List Op)
+    (hn : ∀ pre op post, ops = pre ++ op :: post →
+      ((stepCore key cfg (run key cfg pre).st op).mem.map key).Nodup) : K key (run key cfg ops) :=
+  run_induction_moments key cfg (K key) (fun _ s => (s.mem.map key).Nodup)
+    (fun _ op h hq => K_step key h op hq) {} (K_init key) ops hn
 
 /-! ## without restart: the memory list is the abstract FIFO -/
 
@@ -463,10 +543,18 @@ theorem run_refines (cfg : Cfg) (ops : List Op) (hp : ∀ op ∈ ops, op.plain =
     rw [hout, h1.2] at h2
     exact ⟨h2.1, by rw [h2.2]; simp⟩
 
-/-- without restart: handed out ++ pending = accepted, as lists -/
+/-- a primitive transition keeps "removed ++ pending = accepted" as lists -/
+theorem fifo_trans {cfg : Cfg} {s s₁ : St} {a d acc rem : List Batch} (t : Trans key cfg s s₁ a d)
+    (h : rem ++ s.mem = acc) : rem ++ d ++ s₁.mem = acc ++ a := by
+  cases t with
+  | none => simpa using h
+  | accept b hf => simp [accept, ← h]
+  | pop b rest hm => rw [hm] at h; simp [pop, ← h]
+
+/-- without restart: removed ++ pending = accepted, as lists -/
 theorem fifo_plain (cfg : Cfg) (ops : List Op) (hp : ∀ op ∈ ops, op.plain = true) (r : Run)
-    (h : r.dlv ++ r.st.mem = r.acc) :
-    (runFrom key cfg r ops).dlv ++ (runFrom key cfg r ops).st.mem = (runFrom key cfg r ops).acc := by
+    (h : r.rem ++ r.st.mem = r.acc) :
+    (runFrom key cfg r ops).rem ++ (runFrom key cfg r ops).st.mem = (runFrom key cfg r ops).acc := by
   induction ops generalizing r with
   | nil => exact h
   | cons op ops ih =>
@@ -474,94 +562,281 @@ theorem fifo_plain (cfg : Cfg) (ops : List Op) (hp : ∀ op ∈ ops, op.plain = 
     refine ih (fun o ho => hp o (by simp [ho])) _ ?_
     obtain ⟨s₁, t, _, hpl⟩ := step_cases key cfg r.st op
     have hs := hpl (hp op (by simp))
-    show r.dlv ++ deliveredBy op (step key cfg r.st op).2 ++ (step key cfg r.st op).1.mem =
+    show r.rem ++ removedBy op (step key cfg r.st op).2 ++ (step key cfg r.st op).1.mem =
       r.acc ++ acceptedBy op (step key cfg r.st op).2
     rw [hs]
-    revert t
-    generalize acceptedBy op (step key cfg r.st op).2 = a
-    generalize deliveredBy op (step key cfg r.st op).2 = d
-    intro t
-    cases t with
-    | none => simpa using h
-    | accept b hf => simp [accept, ← h]
-    | pop b rest hm => rw [hm] at h; simp [pop, ← h]
+    exact fifo_trans key t h
 
-/-! ## keys arriving in ascending order: the datastore order is the arrival order -/
+/-! ## pending keys ascending at every restart: the datastore order is the arrival order there -/
 
-/-- strictly ascending datastore order = memory order -/
-structure A (r : Run) : Prop where
-  keyed : Keyed key r.st.disk
-  fifo : r.dlv ++ r.st.mem = r.acc
-  disk : r.st.disk.map (·.2) = r.st.mem
+/-- K plus: removed ++ pending = accepted as sequences -/
+structure A (r : Run) : Prop extends K key r where
+  fifo : r.rem ++ r.st.mem = r.acc
 
-theorem Disk.ins_last {k : Nat} {v : Batch} {d : Disk} (h : ∀ e ∈ d, e.1 < k) : Disk.ins k v d = d ++ [(k, v)] := by
-  induction d with
-  | nil => rfl
-  | cons e r ih =>
-    have he : e.1 < k := h e (by simp)
-    have : ¬ k < e.1 := by omega
-    simp only [Disk.ins, this, if_false, cons_append]
-    rw [ih (fun x hx => h x (by simp [hx]))]
+/-- two lists with strictly ascending keys that are permutations of each other are equal -/
+theorem eq_of_perm_ascending {l₁ l₂ : List Batch} (hp : l₁.Perm l₂)
+    (h₁ : (l₁.map key).Pairwise (· < ·)) (h₂ : (l₂.map key).Pairwise (· < ·)) : l₁ = l₂ := by
+  rw [pairwise_map] at h₁ h₂
+  exact Perm.eq_of_pairwise (le := fun a b => key a < key b) (fun a b _ _ hab hba => by omega) h₁ h₂ hp
+
+theorem nodup_of_ascending {l : List Nat} (h : l.Pairwise (· < ·)) : l.Nodup :=
+  h.imp (fun hlt heq => by omega)
+
+theorem sorted_keys {d : Disk} (hk : Keyed key d) (hs : d.Sorted) : ((d.map (·.2)).map key).Pairwise (· < ·) := by
+  rw [map_map]
+  have : d.map (key ∘ fun x => x.2) = d.map (·.1) := map_congr_left (fun e he => (hk e he).symm)
+  rw [this, pairwise_map]
+  exact hs
+
+theorem A_step {cfg : Cfg} {r : Run} (hj : J key cfg r.st) (h : A key r) (op : Op)
+    (hn : ((stepCore key cfg r.st op).mem.map key).Nodup)
+    (ha : op.plain = false → ((stepCore key cfg r.st op).mem.map key).Pairwise (· < ·)) :
+    A key (Run.step key cfg r op) := by
+  have hk := K_step key h.toK op hn
+  refine ⟨hk, ?_⟩
+  obtain ⟨t, hs⟩ := step_core key cfg r.st op
+  have hf := fifo_trans key t h.fifo
+  have h1 := K_trans key t h.keyed h.multiset h.disk h.nodup hn
+  by_cases hp : op.plain = true
+  · rw [if_pos hp] at hs
+    simpa [Run.step, hs] using hf
+  · rw [if_neg hp] at hs
+    have hj₁ : J key cfg (stepCore key cfg r.st op) := J_trans key hj t
+    have heq : (stepCore key cfg r.st op).disk.map (·.2) = (stepCore key cfg r.st op).mem :=
+      eq_of_perm_ascending key h1.2.2 (sorted_keys key hj₁.keyed hj₁.sorted) (ha (by simpa using hp))
+    simpa [Run.step, hs, reload, heq] using hf
+
+theorem A_run (cfg : Cfg) (ops : List Op)
+    (hn : ∀ pre op post, ops = pre ++ op :: post →
+      ((stepCore key cfg (run key cfg pre).st op).mem.map key).Nodup)
+    (ha : ∀ pre op post, ops = pre ++ op :: post → op.plain = false →
+      ((stepCore key cfg (run key cfg pre).st op).mem.map key).Pairwise (· < ·)) :
+    A key (run key cfg ops) := by
+  have := run_induction_moments key cfg (fun r => J key cfg r.st ∧ A key r)
+    (fun op s => (s.mem.map key).Nodup ∧ (op.plain = false → (s.mem.map key).Pairwise (· < ·)))
+    (fun r op h hq => ⟨J_step key h.1 op, A_step key h.1 h.2 op hq.1 hq.2⟩) {}
+    ⟨J_init key cfg, ⟨K_init key, rfl⟩⟩ ops (fun pre op post he => ⟨hn pre op post he, ha pre op post he⟩)
+  exact this.2
+
+/-! ## sharpness: the hypotheses of the partial theorems are necessary -/
+
+/-- the multiset half of a primitive transition needs no hypothesis -/
+theorem ms_trans {cfg : Cfg} {s s₁ : St} {a d acc rem : List Batch} (t : Trans key cfg s s₁ a d)
+    (hms : (rem ++ s.mem).Perm acc) : (rem ++ d ++ s₁.mem).Perm (acc ++ a) := by
+  cases t with
+  | none => simpa using hms
+  | accept b hf =>
+    simp only [accept, append_nil]
+    rw [← append_assoc]
+    exact hms.append_right [b]
+  | pop b rest hm =>
+    simp only [pop, append_nil]
+    rw [hm] at hms
+    simpa using hms
+
+/-- "the datastore holds exactly the pending batches" forces pairwise distinct pending keys -/
+theorem nodup_of_disk_perm {cfg : Cfg} {s : St} (hj : J key cfg s) (hd : (s.disk.map (·.2)).Perm s.mem) :
+    (s.mem.map key).Nodup :=
+  ((hd.map key).nodup_iff).1 (nodup_of_ascending (sorted_keys key hj.keyed hj.sorted))
+
+/-- if the accounting is right before and after an operation, no two equal keys were pending in the
+state the operation reached -/
+theorem nodup_necessary {cfg : Cfg} {r : Run} (hj : J key cfg r.st) (op : Op)
+    (h0 : (r.rem ++ r.st.mem).Perm r.acc)
+    (h1 : ((Run.step key cfg r op).rem ++ (Run.step key cfg r op).st.mem).Perm (Run.step key cfg r op).acc)
+    (h2 : ((Run.step key cfg r op).st.disk.map (·.2)).Perm (Run.step key cfg r op).st.mem) :
+    ((stepCore key cfg r.st op).mem.map key).Nodup := by
+  obtain ⟨t, hs⟩ := step_core key cfg r.st op
+  have hj₁ : J key cfg (stepCore key cfg r.st op) := J_trans key hj t
+  by_cases hp : op.plain = true
+  · rw [if_pos hp] at hs
+    have : (Run.step key cfg r op).st = stepCore key cfg r.st op := hs
+    rw [this] at h2
+    exact nodup_of_disk_perm key hj₁ h2
+  · rw [if_neg hp] at hs
+    have hm := ms_trans key t h0
+    have hst : (Run.step key cfg r op).st = reload (stepCore key cfg r.st op) := hs
+    have h1' : (r.rem ++ removedBy op (step key cfg r.st op).2 ++ (stepCore key cfg r.st op).disk.map (·.2)).Perm
+        (r.acc ++ acceptedBy op (step key cfg r.st op).2) := by
+      have := h1
+      rw [hst] at this
+      simpa [Run.step, reload] using this
+    have h3 : ((stepCore key cfg r.st op).disk.map (·.2)).Perm (stepCore key cfg r.st op).mem :=
+      (perm_append_left_iff _).1 (h1'.trans hm.symm)
+    exact nodup_of_disk_perm key hj₁ h3
+
+/-- if "removed ++ pending = accepted" holds as sequences before and after a restarting operation,
+the pending keys were in ascending order when the process stopped -/
+theorem ascending_necessary {cfg : Cfg} {r : Run} (hj : J key cfg r.st) (op : Op) (hp : op.plain = false)
+    (h0 : r.rem ++ r.st.mem = r.acc)
+    (h1 : (Run.step key cfg r op).rem ++ (Run.step key cfg r op).st.mem = (Run.step key cfg r op).acc) :
+    ((stepCore key cfg r.st op).mem.map key).Pairwise (· < ·) := by
+  obtain ⟨t, hs⟩ := step_core key cfg r.st op
+  have hj₁ : J key cfg (stepCore key cfg r.st op) := J_trans key hj t
+  rw [if_neg (by simp [hp])] at hs
+  have hf := fifo_trans key t h0
+  have hst : (Run.step key cfg r op).st = reload (stepCore key cfg r.st op) := hs
+  have h1' : r.rem ++ removedBy op (step key cfg r.st op).2 ++ (stepCore key cfg r.st op).disk.map (·.2) =
+      r.acc ++ acceptedBy op (step key cfg r.st op).2 := by
+    have := h1
+    rw [hst] at this
+    simpa [Run.step, reload] using this
+  have h3 : (stepCore key cfg r.st op).disk.map (·.2) = (stepCore key cfg r.st op).mem :=
+    append_cancel_left (h1'.trans hf.symm)
+  rw [← h3]
+  exact sorted_keys key hj₁.keyed hj₁.sorted
+
+theorem run_snoc (cfg : Cfg) (pre : List Op) (op : Op) :
+    run key cfg (pre ++ [op]) = Run.step key cfg (run key cfg pre) op := by
+  simp [run, runFrom, foldl_append]
+
+/-! ## the coarser hypotheses on the whole accepted list imply the sharp ones -/
+
+theorem nodup_keys_prefix (l t : List Batch) (h : ((l ++ t).map key).Nodup) : (l.map key).Nodup := by
+  rw [map_append] at h
+  exact (nodup_append.1 h).1
 
 theorem ascending_prefix (l t : List Batch) (h : ((l ++ t).map key).Pairwise (· < ·)) :
     (l.map key).Pairwise (· < ·) := by
   rw [map_append] at h
   exact (pairwise_append.1 h).1
 
-theorem A_trans {cfg : Cfg} {s s₁ : St} {a d acc dlv : List Batch} (t : Trans key cfg s s₁ a d)
-    (hkd : Keyed key s.disk) (hf : dlv ++ s.mem = acc) (hdisk : s.disk.map (·.2) = s.mem)
-    (hn : ((acc ++ a).map key).Pairwise (· < ·)) :
-    Keyed key s₁.disk ∧ dlv ++ d ++ s₁.mem = acc ++ a ∧ s₁.disk.map (·.2) = s₁.mem := by
-  cases t with
-  | none => exact ⟨hkd, by simpa using hf, hdisk⟩
-  | accept b hfull =>
-    -- every pending key is smaller than the new one
-    have hlt : ∀ x ∈ s.mem, key x < key b := by
-      intro x hx
-      have hxa : x ∈ acc := hf ▸ mem_append_right _ hx
-      rw [map_append, pairwise_append] at hn
-      exact hn.2.2 (key x) (mem_map_of_mem hxa) (key b) (by simp)
-    have hdl : ∀ e ∈ s.disk, e.1 < key b := by
-      intro e he
-      rw [hkd e he]
-      exact hlt e.2 (hdisk ▸ mem_map_of_mem (f := (·.2)) he)
-    refine ⟨keyed_put hkd b, by simp [accept, ← hf], ?_⟩
-    have hdel : Disk.del (key b) s.disk = s.disk :=
-      filter_eq_self.2 (fun e he => by have := hdl e he; simp; omega)
-    simp only [accept, Disk.put, hdel, Disk.ins_last hdl, map_append, hdisk, map_cons, map_nil]
-  | pop b rest hm =>
-    simp only [append_nil] at hn
-    have hmem : (s.mem.map key).Pairwise (· < ·) := by
-      rw [← hf, map_append] at hn
-      exact (pairwise_append.1 hn).2.1
-    have hnk : ∀ x ∈ rest, key x ≠ key b := by
-      rw [hm, map_cons, pairwise_cons] at hmem
-      intro x hx hxb
-      have := hmem.1 (key x) (mem_map_of_mem hx)
-      omega
-    refine ⟨keyed_del hkd _, by rw [hm] at hf; simp [pop, ← hf], ?_⟩
-    simp only [pop]
-    rw [map_del hkd, hdisk, hm]
-    simp only [filter_cons, ne_eq, not_true_eq_false, decide_false]
-    exact filter_eq_self.2 (fun x hx => by simpa using hnk x hx)
+/-- keys of all accepted batches pairwise distinct ⇒ K -/
+theorem K_run_of_nodup (cfg : Cfg) (ops : List Op) (hn : ((run key cfg ops).acc.map key).Nodup) :
+    K key (run key cfg ops) := by
+  refine run_induction_guarded key cfg (K key) (fun l => (l.map key).Nodup) (nodup_keys_prefix key)
+    (fun r op h hg => K_step key h op ?_) {} (K_init key) ops hn
+  obtain ⟨t, _⟩ := step_core key cfg r.st op
+  have hm := (ms_trans key t h.multiset).map key
+  have : ((r.rem ++ removedBy op (step key cfg r.st op).2 ++ (stepCore key cfg r.st op).mem).map key).Nodup :=
+    (hm.nodup_iff).2 hg
+  rw [map_append] at this
+  exact (nodup_append.1 this).2.1
 
-theorem A_step {cfg : Cfg} {r : Run} (h : A key r) (op : Op)
-    (hn : ((Run.step key cfg r op).acc.map key).Pairwise (· < ·)) : A key (Run.step key cfg r op) := by
-  obtain ⟨s₁, t, hs, _⟩ := step_cases key cfg r.st op
-  have hacc : (Run.step key cfg r op).acc = r.acc ++ acceptedBy op (step key cfg r.st op).2 := rfl
-  rw [hacc] at hn
-  have h1 := A_trans key t h.keyed h.fifo h.disk hn
-  rcases hs with hs | hs
-  · exact ⟨by simpa [Run.step, hs] using h1.1, by simpa [Run.step, hs] using h1.2.1, by simpa [Run.step, hs] using h1.2.2⟩
-  · refine ⟨by simpa [Run.step, hs, reload] using h1.1, ?_, by simp [Run.step, hs, reload]⟩
-    have := h1.2.1
-    rw [← h1.2.2] at this
-    simpa [Run.step, hs, reload] using this
+/-- keys of the accepted batches strictly ascending in acceptance order ⇒ A -/
+theorem A_run_of_ascending (cfg : Cfg) (ops : List Op) (hn : ((run key cfg ops).acc.map key).Pairwise (· < ·)) :
+    A key (run key cfg ops) := by
+  have := run_induction_guarded key cfg (fun r => J key cfg r.st ∧ A key r) (fun l => (l.map key).Pairwise (· < ·))
+    (ascending_prefix key) (fun r op h hg => ?_) {} ⟨J_init key cfg, ⟨K_init key, rfl⟩⟩ ops hn
+  · exact this.2
+  · obtain ⟨t, _⟩ := step_core key cfg r.st op
+    have hf := fifo_trans key t h.2.fifo
+    have hasc : ((stepCore key cfg r.st op).mem.map key).Pairwise (· < ·) := by
+      have hg' : ((r.acc ++ acceptedBy op (step key cfg r.st op).2).map key).Pairwise (· < ·) := hg
+      rw [← hf, map_append] at hg'
+      exact (pairwise_append.1 hg').2.1
+    exact ⟨J_step key h.1 op, A_step key h.1 h.2 op (nodup_of_ascending hasc) (fun _ => hasc)⟩
 
-theorem A_run (cfg : Cfg) (ops : List Op) (hn : ((run key cfg ops).acc.map key).Pairwise (· < ·)) :
-    A key (run key cfg ops) :=
-  run_induction_guarded key cfg (A key) (fun l => (l.map key).Pairwise (· < ·)) (ascending_prefix key)
-    (fun _ op h hg => A_step key h op hg) {} ⟨fun _ h => by simp at h, rfl, rfl⟩ ops hn
+/-! ## concurrent callers: every interleaving of atomic calls is a sequential history -/
+
+theorem conc_of_interleaving {cfg : Cfg} {progs : List (List Op)} {sched : List Op}
+    (h : Interleaving progs sched) (r : Run) : Conc key cfg progs r (runFrom key cfg r sched) := by
+  induction h generalizing r with
+  | done hd => exact .done hd
+  | call i op rest hi _ ih => exact .call i op rest hi (ih (Run.step key cfg r op))
+
+theorem interleaving_of_conc {cfg : Cfg} {progs : List (List Op)} {r r' : Run}
+    (h : Conc key cfg progs r r') : ∃ sched, Interleaving progs sched ∧ r' = runFrom key cfg r sched := by
+  induction h with
+  | done hd => exact ⟨[], .done hd, rfl⟩
+  | call i op rest hi _ ih =>
+    obtain ⟨sched, hs, hr⟩ := ih
+    exact ⟨op :: sched, .call i op rest hi hs, hr⟩
+
+theorem flatten_set_perm {progs : List (List Op)} {i : Nat} {op : Op} {rest : List Op}
+    (h : progs[i]? = some (op :: rest)) : progs.flatten.Perm (op :: (progs.set i rest).flatten) := by
+  induction progs generalizing i with
+  | nil => simp at h
+  | cons p ps ih =>
+    cases i with
+    | zero =>
+      simp only [getElem?_cons_zero, Option.some.injEq] at h
+      subst h
+      simp
+    | succ i =>
+      simp only [getElem?_cons_succ] at h
+      simp only [flatten_cons, set_cons_succ]
+      exact (Perm.append_left p (ih h)).trans perm_middle
+
+/-- a schedule contains every call of every client exactly once … -/
+theorem Interleaving.perm {progs : List (List Op)} {sched : List Op} (h : Interleaving progs sched) :
+    sched.Perm progs.flatten := by
+  induction h with
+  | done hd => rw [flatten_eq_nil_iff.2 hd]
+  | call i op rest hi _ ih => exact (Perm.cons op ih).trans (flatten_set_perm hi).symm
+
+/-- … and every client's calls in its program order -/
+theorem Interleaving.sublist {progs : List (List Op)} {sched : List Op} (h : Interleaving progs sched) :
+    ∀ p ∈ progs, p.Sublist sched := by
+  induction h with
+  | done hd => intro p hp; rw [hd p hp]; exact nil_sublist _
+  | @call progs sched i op rest hi _ ih =>
+    intro p hp
+    obtain ⟨j, hj⟩ := mem_iff_getElem?.1 hp
+    have hil : i < progs.length := by
+      rcases Nat.lt_or_ge i progs.length with h | h
+      · exact h
+      · rw [getElem?_eq_none h] at hi; cases hi
+    by_cases hij : i = j
+    · subst hij
+      rw [hi] at hj
+      cases hj
+      have : rest ∈ progs.set i rest := mem_iff_getElem?.2 ⟨i, by simp [hil]⟩
+      exact (ih rest this).cons_cons op
+    · have : p ∈ progs.set i rest := mem_iff_getElem?.2 ⟨j, by rw [getElem?_set_ne hij]; exact hj⟩
+      exact (ih p this).cons op
+
+/-! ## the driver's rendering of a key: 64 hex digits of the number = hex of the 32 hash bytes -/
+
+/-- `n` hex digits of `k`, most significant first -/
+def hexN (n k : Nat) : List Char := (List.range n).map fun i => Nat.digitChar (k / 16 ^ (n - 1 - i) % 16)
+
+theorem hexN_step (n k b : Nat) (hb : b < 256) :
+    hexN (n + 2) (k * 256 + b) = hexN n k ++ [Nat.digitChar (b / 16), Nat.digitChar (b % 16)] := by
+  unfold hexN
+  rw [range_succ, range_succ, map_append, map_append, append_assoc]
+  congr 1
+  · refine map_congr_left (fun i hi => ?_)
+    have hi : i < n := mem_range.1 hi
+    have he : n + 2 - 1 - i = (n - 1 - i) + 2 := by omega
+    rw [he, Nat.pow_add, Nat.mul_comm (16 ^ (n - 1 - i)), ← Nat.div_div_eq_div_mul]
+    have : (k * 256 + b) / 16 ^ 2 = k := by omega
+    rw [this]
+  · have h1 : n + 2 - 1 - n = 1 := by omega
+    have h2 : n + 2 - 1 - (n + 1) = 0 := by omega
+    simp only [map_cons, map_nil, h1, h2, Nat.pow_one, Nat.pow_zero, Nat.div_one, cons_append, nil_append]
+    have e1 : (k * 256 + b) / 16 % 16 = b / 16 := by omega
+    have e2 : (k * 256 + b) % 16 = b % 16 := by omega
+    rw [e1, e2]
+
+theorem hexN_foldl (bs : Bytes) (n k : Nat) :
+    hexN (n + 2 * bs.length) (bs.foldl (fun acc x => acc * 256 + x.toNat) k) =
+      hexN n k ++ bs.flatMap fun b => [Bytes.hexDigit (b.toNat / 16), Bytes.hexDigit (b.toNat % 16)] := by
+  induction bs generalizing n k with
+  | nil => simp
+  | cons b r ih =>
+    have := ih (n + 2) (k * 256 + b.toNat)
+    have hl : n + 2 * (b :: r).length = n + 2 + 2 * r.length := by simp only [length_cons]; omega
+    rw [hl, foldl_cons, this, hexN_step n k b.toNat (UInt8.toNat_lt b)]
+    simp [Bytes.hexDigit]
+
+/-- hex of a byte string = the hex digits of its big-endian value (two per byte) -/
+theorem toHex_eq_hexN (bs : Bytes) : Bytes.toHex bs = String.ofList (hexN (2 * bs.length) (beNat bs)) := by
+  have := hexN_foldl bs 0 0
+  simp only [Nat.zero_add] at this
+  unfold Bytes.toHex beNat
+  rw [this]
+  simp [hexN]
+
+theorem sha256_length (bs : Bytes) : (sha256 bs).length = 32 := by
+  simp [sha256, Sha256.hash, Sha256.be4]
+
+/-- the key string the driver prints from the model's numeric key is the key string of the real
+layout: `/batches/` + lowercase hex of `Batch.Hash` -/
+theorem keyString_eq_renderKey (b : Batch) : keyString b = renderKey (realKey b) := by
+  unfold keyString renderKey hex64 realKey
+  rw [toHex_eq_hexN, show (hashOf b).length = 32 from sha256_length _]
+  rfl
 
 end
 end Queue
